@@ -102,9 +102,9 @@ pub open spec fn has_legacy_record(ev: MonitorEvent) -> bool { ev is HTLCEvent |
 //@ensures P C12 the-count-written-before-the-pending-monitor-events-covers-exactly-the-events-that-have-a-legacy-record
     r == has_legacy_record(*ev),
 //@mutant force_closed_with_info_not_counted
-    MonitorEvent::HolderForceClosedWithInfo { .. } => true,
+    MonitorEvent::HolderForceClosedWithInfo { .. } => true, _ => false, }) .count() as u64)
 //@with
-    MonitorEvent::HolderForceClosedWithInfo { .. } => false,
+    MonitorEvent::HolderForceClosedWithInfo { .. } => false, _ => false, }) .count() as u64)
 //@end
 //@extract lightning/src/chain/channelmonitor.rs :: fn write_chanmon_internal
 //@slice R15
